@@ -366,6 +366,7 @@ func runBatch(idx int, mods []Module, job *Job) BatchResult {
 func RunMaster(self, tmp string, job *Job, watchdog time.Duration) []BatchResult {
 	results := map[int]BatchResult{}
 	crashFailures := 0
+	nOriginal := len(job.Batches)
 	todo := make([]int, len(job.Batches))
 	for i := range todo {
 		todo[i] = i
@@ -455,8 +456,18 @@ func RunMaster(self, tmp string, job *Job, watchdog time.Duration) []BatchResult
 			b := job.Batches[i]
 			if len(b) == 1 && len(inf) == 1 {
 				crashFailures++
+				key := FailureKey(why)
+				if !killed && !crashMinimised[key] {
+					// the culprit is known: shrink it (one witness per crash signature), each attempt in a process of its own
+					crashMinimised[key] = true
+					m := MinimiseText(b[0], func(p Parsed) bool {
+						c, w := crashesAlone(self, tmp, job, p.Module)
+						return c && FailureKey(w) == key
+					}, 60)
+					b = []Module{m}
+				}
 				results[i] = BatchResult{Batch: i, N: 1, Crash: why,
-					Failures: []Failure{{Key: FailureKey(why), Modules: b, Err: why, Timeout: killed}}}
+					Failures: []Failure{{Key: key, Modules: b, Err: why, Timeout: killed}}}
 			} else if len(b) == 1 {
 				// several batches were in flight: run this one again, alone
 				job.Batches = append(job.Batches, b)
@@ -471,8 +482,14 @@ func RunMaster(self, tmp string, job *Job, watchdog time.Duration) []BatchResult
 		if len(inf) > 0 {
 			job.Par = 1 // after a crash continue one batch at a time so that the culprit is unambiguous
 		}
+		// batches re-queued after a crash first: isolating the culprits matters more than finishing the rest
 		todo = todo[:0]
-		for i := range job.Batches {
+		for i := nOriginal; i < len(job.Batches); i++ {
+			if _, ok := results[i]; !ok {
+				todo = append(todo, i)
+			}
+		}
+		for i := 0; i < nOriginal; i++ {
 			if _, ok := results[i]; !ok {
 				todo = append(todo, i)
 			}
@@ -488,6 +505,49 @@ func RunMaster(self, tmp string, job *Job, watchdog time.Duration) []BatchResult
 		res = append(res, results[i])
 	}
 	return res
+}
+
+var (
+	crashMinimised = map[string]bool{}
+	crashProbeSeq  int
+)
+
+// crashesAlone runs ONE module through a fresh worker process with the job's settings and reports whether the
+// process died (panic in a goroutine of the linter, fatal error, os.Exit); a hang counts as "did not crash".
+func crashesAlone(self, tmp string, job *Job, m Module) (bool, string) {
+	crashProbeSeq++
+	j2 := *job
+	j2.Batches = [][]Module{{m}}
+	j2.Todo = []int{0}
+	j2.Par = 1
+	jp := filepath.Join(tmp, fmt.Sprintf("probe_%d.json", crashProbeSeq))
+	op := filepath.Join(tmp, fmt.Sprintf("probe_%d.jsonl", crashProbeSeq))
+	jb, _ := json.Marshal(&j2)
+	if err := os.WriteFile(jp, jb, 0o644); err != nil {
+		panic(err)
+	}
+	defer os.Remove(jp)
+	defer os.Remove(op)
+	cmd := exec.Command(self, "worker", jp, op)
+	var tail tailBuf
+	cmd.Stdout = &tail
+	cmd.Stderr = &tail
+	if err := cmd.Start(); err != nil {
+		panic(err)
+	}
+	done := make(chan error, 1)
+	go func() { done <- cmd.Wait() }()
+	select {
+	case err := <-done:
+		if err == nil {
+			return false, ""
+		}
+		return true, "worker crashed: " + tail.String()
+	case <-time.After(3 * time.Minute):
+		cmd.Process.Kill()
+		<-done
+		return false, ""
+	}
 }
 
 func clip(s string, n int) string {
@@ -537,6 +597,8 @@ type Plan struct {
 	BatchSize    int
 	BundleSample int // 0 = all bundle files
 	SingleFile   int // this many modules are additionally linted alone (single-file mode: no aggregate phase)
+	FamilySample int // 0 = all modules of the systematic families (uncompilable, comment placement), else a sample of each
+	Deep         bool
 }
 
 type Assembled struct {
@@ -602,6 +664,22 @@ func Assemble(r *hutil.Rng, p Plan) Assembled {
 	stress := StressModules(p.Stress)
 	a.Counts["stress"] = len(stress)
 	a.Batches = append(a.Batches, batchUp(stress, p.BatchSize)...)
+	// the systematic families: parseable-but-not-compilable modules, comments at every token boundary
+	sample := func(ms []Module) []Module {
+		if p.FamilySample > 0 && p.FamilySample < len(ms) {
+			ms = append([]Module{}, ms...)
+			hutil.Shuffle(r, ms)
+			ms = ms[:p.FamilySample]
+			sort.Slice(ms, func(i, j int) bool { return ms[i].Name < ms[j].Name })
+		}
+		return ms
+	}
+	unc := sample(UncompilableModules())
+	a.Counts["uncompilable"] = len(unc)
+	a.Batches = append(a.Batches, batchUp(unc, p.BatchSize)...)
+	cpl := sample(CommentPlacementModules(p.Deep))
+	a.Counts["comment_placement"] = len(cpl)
+	a.Batches = append(a.Batches, batchUp(cpl, p.BatchSize)...)
 	gen := GenModules(r, p.GenN)
 	a.Counts["gen"] = len(gen)
 	a.Batches = append(a.Batches, batchUp(gen, p.BatchSize)...)
@@ -612,6 +690,7 @@ func Assemble(r *hutil.Rng, p Plan) Assembled {
 	a.Batches = append(a.Batches, batchUp(mut, p.BatchSize)...)
 	// single-file mode for a sample: one file per Lint call exercises the path without the aggregate phase
 	all := append(append(append([]Module{}, stress...), gen...), mut...)
+	all = append(append(all, unc...), cpl...)
 	for i := 0; i < p.SingleFile && len(all) > 0; i++ {
 		a.Batches = append(a.Batches, []Module{all[r.Below(len(all))]})
 		a.Counts["single_file_runs"]++
